@@ -716,7 +716,23 @@ func c15GenCase(t *rapid.T) c15Case {
 			if rapid.IntRange(0, 5).Draw(t, "longlit") == 0 {
 				maxLit = 120 // longer than the 32-byte stack buffer of a non-escaping conversion
 			}
-			lit := rapid.SliceOfN(rapid.Byte(), 1, maxLit).Draw(t, "lit")
+			var lit []byte
+			if rapid.IntRange(0, 7).Draw(t, "blocklit") == 0 {
+				// a run whose length sits on or next to a power-of-two block size (staging buffers),
+				// usually followed by "%%" or a verb
+				k := rapid.SampledFrom([]int{16, 32, 64, 64, 128, 192, 256, 512}).Draw(t, "litblock") + rapid.IntRange(-1, 1).Draw(t, "litoff")
+				seed := rapid.Byte().Draw(t, "litseed")
+				lit = make([]byte, k)
+				for j := range lit {
+					lit[j] = 'a' + byte(j+int(seed))%26
+				}
+				c.Pieces = append(c.Pieces, c15Piece{Lit: lit, Width: -1})
+				if rapid.Bool().Draw(t, "litthenpct") {
+					c.Pieces = append(c.Pieces, c15Piece{Pct: true, Width: -1})
+				}
+				continue
+			}
+			lit = rapid.SliceOfN(rapid.Byte(), 1, maxLit).Draw(t, "lit")
 			for j := range lit {
 				if lit[j] == '%' {
 					lit[j] = '#'
